@@ -28,7 +28,7 @@ def decided(M, el):
 
 
 def check_transition(conf, hist, op, G, M, out, exp):
-    if op[0] in ('node', 'nodes', 'uattr', 'uattrs', 'observe', 'clear', 'clear_edges'):
+    if op[0] in ('node', 'nodes', 'nodes2', 'uattr', 'uattrs', 'observe', 'clear', 'clear_edges'):
         return [], {}
     viols = []
     Mp = M.prev
